@@ -16,6 +16,15 @@ Theorem C04_total_unambiguous :
 Proof. exact total_unambiguous_modulo_known. Qed.
 Print Assumptions C04_total_unambiguous.
 
+(* whatever Algorithm object is passed -- every Algorithm subclass of the live package in every algorithm position,
+   documented for that function or not -- two rules never tie (the call may find no rule for an algorithm the
+   function does not accept, or reach a rule that raises: both outside C04) *)
+Theorem C04_no_ties_any_algorithm :
+  forall fs, In fs specs_ext -> forall req opt, admissible fs req opt ->
+    select fs req opt = Ambiguous -> is_known KAmbiguous fs req opt.
+Proof. exact no_ties_any_algorithm. Qed.
+Print Assumptions C04_no_ties_any_algorithm.
+
 (* the swept list is the complete lattice: a call is enumerated iff every required argument is in its admissible set
    and the optional arguments form a valid python call with values from their admissible sets *)
 Theorem C04_lattice_complete : forall fs req opt, In (req, opt) (calls fs) <-> admissible fs req opt.
